@@ -158,18 +158,35 @@ fn must_quote(s: &[u8]) -> bool {
     let kws = [&null, &on, &off, &yes, &no, &true_, &false_, &inf, &nan];
     let kws = kws.map(|a| a.map(str::as_bytes));
 
-    // https://yaml.org/spec/1.2.2/#912-document-markers
-    let is_doc_marker = |s: &[u8]| matches!(s, b"---" | b"...");
+    let s_white = |c: &u8| b" \t".contains(c);
 
-    // number overapproximation
-    let is_pos_num = |s: &[u8]| s.first().is_some_and(u8::is_ascii_digit);
-    let is_num = |s: &[u8]| is_pos_num(s.strip_prefix(b"-").unwrap_or(s));
+    // https://yaml.org/spec/1.2.2/#912-document-markers
+    // a marker followed by a blank also starts/ends a document
+    let is_doc_marker = |s: &[u8]| {
+        (s.starts_with(b"---") || s.starts_with(b"...")) && s.get(3).map_or(true, s_white)
+    };
+
+    // number overapproximation: optional sign, then a digit, `.` and a digit, or `.inf`
+    let is_pos_num = |s: &[u8]| match s {
+        [c, ..] if c.is_ascii_digit() => true,
+        [b'.', c, ..] => c.is_ascii_digit(),
+        _ => false,
+    };
+    fn strip_sign(s: &[u8]) -> &[u8] {
+        match s {
+            [b'+' | b'-', rest @ ..] => rest,
+            _ => s,
+        }
+    }
+    let is_num = |s: &[u8]| is_pos_num(strip_sign(s)) || kws[7].contains(&strip_sign(s));
 
     s == b"~"
         || is_doc_marker(s)
         || is_num(s)
         || kws.iter().any(|ss| ss.contains(&s))
         || !ns_plain_one_line(s)
+        // trailing blanks are not part of a plain scalar
+        || s.last().is_some_and(s_white)
 }
 
 #[test]
